@@ -59,7 +59,7 @@ func decFromRaw(raw *big.Int) sdkmath.LegacyDec {
 // shareFnCase is one function-level case (all values as decimal strings of raw integers).
 type shareFnCase struct {
 	S, A, Sh, X string
-	Down      int
+	Down        int
 }
 
 // checkShareFns compares TokensFromShares / SharesFromTokens with exact integer arithmetic.
